@@ -46,6 +46,7 @@ package varmq
 // counted once, marked queued, and the dispatcher is signalled -- in that order.
 //@ func queue.Add
 //@   props C01 C03 C10 C17
+//@   assert [signal-after-bookkeeping] before call invoke.notifyToPullNextJobs: j.status == queued
 //@   requires q.externalBaseQueue != nil && q.externalBaseQueue.w != nil && q.internalQueue != nil
 //@   requires forall k int :: 0 <= k && k < len(configs) ==> configs[k] != nil
 //@   modifies $usercalls, $alloc, $wgdone[0], $lenOf(q.internalQueue), $enq(q.internalQueue), $lastEnq(q.internalQueue), $submitted, $signals(q.externalBaseQueue.w), $acks, $lastAck
@@ -60,6 +61,7 @@ package varmq
 // AddAll: every item is either enqueued once (counted, signalled) or rejected and closed; the handle's counter is the number accepted.
 //@ func queue.AddAll
 //@   props C01 C05 C08 C17
+//@   assert [signal-after-bookkeeping] before call invoke.notifyToPullNextJobs: j.job.status == queued
 //@   requires q.externalBaseQueue != nil && q.externalBaseQueue.w != nil && q.internalQueue != nil && len(items) <= MaxUint32
 //@   modifies $usercalls, $alloc, $wgdone[0], $lenOf(q.internalQueue), $enq(q.internalQueue), $lastEnq(q.internalQueue), $submitted, $signals(q.externalBaseQueue.w), $acks, $lastAck
 //@   ensures [pending]  groupJob.wgc.count == $enq(q.internalQueue) - old($enq(q.internalQueue)) && RI_Wgc(groupJob.wgc)
@@ -71,3 +73,301 @@ package varmq
 //@                                && $enq(q.internalQueue) >= old($enq(q.internalQueue)) && groupJob.wgc.count <= len(items)
 //@   loop 1: invariant [effect] $signals(q.externalBaseQueue.w) - old($signals(q.externalBaseQueue.w)) == $enq(q.internalQueue) - old($enq(q.internalQueue))
 //@                                && $lenOf(q.internalQueue) - old($lenOf(q.internalQueue)) == $enq(q.internalQueue) - old($enq(q.internalQueue))
+
+// ---------------------------------------------------------------- the other in-memory queue wrappers (same shape as queue.Add / queue.AddAll)
+
+//@ func newErrorQueue
+//@   props C15 C17
+//@   requires w != nil && QM(w)
+//@   modifies $alloc, w.queues.Manager.items, w.queues.Manager.items[**]
+//@   ensures [once]  len(w.queues.Manager.items) == old(len(w.queues.Manager.items)) + 1 && w.queues.Manager.items[old(len(w.queues.Manager.items))] == q
+//@   ensures [kept]  forall i int :: 0 <= i && i < old(len(w.queues.Manager.items)) ==> w.queues.Manager.items[i] == old(w.queues.Manager.items[i])
+//@   ensures [wired] $fresh(result) && result.internalQueue == q && result.externalBaseQueue != nil && result.externalBaseQueue.q == q && result.externalBaseQueue.w == $mk(w)
+
+//@ func errorQueue.Add
+//@   props C01 C03 C10 C17
+//@   assert [signal-after-bookkeeping] before call invoke.notifyToPullNextJobs: j.job.status == queued
+//@   requires q.externalBaseQueue != nil && q.externalBaseQueue.w != nil && q.internalQueue != nil
+//@   requires forall k int :: 0 <= k && k < len(configs) ==> configs[k] != nil
+//@   modifies $usercalls, $alloc, $wgdone[0], $lenOf(q.internalQueue), $enq(q.internalQueue), $lastEnq(q.internalQueue), $submitted, $signals(q.externalBaseQueue.w), $acks, $lastAck
+//@   ensures [rejected] !result1 ==> result0 == nil && $lenOf(q.internalQueue) == old($lenOf(q.internalQueue)) && $enq(q.internalQueue) == old($enq(q.internalQueue))
+//@                        && $signals(q.externalBaseQueue.w) == old($signals(q.externalBaseQueue.w)) && j.job.status == closed && j.job.wg == 0 && !$open(j.Response.ch)
+//@   ensures [accepted] result1 ==> result0 == $mk(j) && $enq(q.internalQueue) == old($enq(q.internalQueue)) + 1 && $lastEnq(q.internalQueue) == $mk(j)
+//@                        && $lenOf(q.internalQueue) == old($lenOf(q.internalQueue)) + 1 && $signals(q.externalBaseQueue.w) == old($signals(q.externalBaseQueue.w)) + 1
+//@                        && j.job.status == queued && j.job.wg == 1 && j.job.data == data
+//@   ensures [counted]  forall m ref {$submitted(m)} :: $submitted(m) == old($submitted(m)) || (result1 && $submitted(m) == old($submitted(m)) + 1)
+//@   ensures [fresh]    $fresh(j)
+
+//@ func errorQueue.AddAll
+//@   props C01 C05 C08 C17
+//@   assert [signal-after-bookkeeping] before call invoke.notifyToPullNextJobs: j.errorJob.job.status == queued
+//@   requires q.externalBaseQueue != nil && q.externalBaseQueue.w != nil && q.internalQueue != nil && len(items) <= MaxUint32
+//@   modifies $usercalls, $alloc, $wgdone[0], $lenOf(q.internalQueue), $enq(q.internalQueue), $lastEnq(q.internalQueue), $submitted, $signals(q.externalBaseQueue.w), $acks, $lastAck
+//@   ensures [pending]  groupJob.wgc.count == $enq(q.internalQueue) - old($enq(q.internalQueue)) && RI_Wgc(groupJob.wgc)
+//@   ensures [signals]  $signals(q.externalBaseQueue.w) - old($signals(q.externalBaseQueue.w)) == $enq(q.internalQueue) - old($enq(q.internalQueue))
+//@   ensures [len]      $lenOf(q.internalQueue) - old($lenOf(q.internalQueue)) == $enq(q.internalQueue) - old($enq(q.internalQueue))
+//@   ensures [handle]   result == $mk(groupJob) && $fresh(groupJob)
+//@   ensures [stream]   len(items) > 0 ==> (groupJob.wgc.count >= 1 <==> $open(groupJob.errorJob.Response.ch))
+//@   loop 1: invariant [range]  0 <= rangeindex + 1 && rangeindex + 1 <= len(items) && RI_Wgc(groupJob.wgc) && $fresh(groupJob) && $fresh(groupJob.wgc)
+//@   loop 1: invariant [count]  ($enq(q.internalQueue) - old($enq(q.internalQueue))) + (len(items) - groupJob.wgc.count) == rangeindex + 1
+//@                                && $enq(q.internalQueue) >= old($enq(q.internalQueue)) && groupJob.wgc.count <= len(items)
+//@   loop 1: invariant [effect] $signals(q.externalBaseQueue.w) - old($signals(q.externalBaseQueue.w)) == $enq(q.internalQueue) - old($enq(q.internalQueue))
+//@                                && $lenOf(q.internalQueue) - old($lenOf(q.internalQueue)) == $enq(q.internalQueue) - old($enq(q.internalQueue))
+//@   loop 1: invariant [stream] $fresh(groupJob.errorJob.Response.ch) && StreamOK(groupJob.errorJob.Response, groupJob.wgc) && (len(items) > 0 ==> (groupJob.wgc.count >= 1 <==> $open(groupJob.errorJob.Response.ch)))
+
+//@ func newResultQueue
+//@   props C15 C17
+//@   requires w != nil && QM(w)
+//@   modifies $alloc, w.queues.Manager.items, w.queues.Manager.items[**]
+//@   ensures [once]  len(w.queues.Manager.items) == old(len(w.queues.Manager.items)) + 1 && w.queues.Manager.items[old(len(w.queues.Manager.items))] == q
+//@   ensures [kept]  forall i int :: 0 <= i && i < old(len(w.queues.Manager.items)) ==> w.queues.Manager.items[i] == old(w.queues.Manager.items[i])
+//@   ensures [wired] $fresh(result) && result.internalQueue == q && result.externalBaseQueue != nil && result.externalBaseQueue.q == q && result.externalBaseQueue.w == $mk(w)
+
+//@ func resultQueue.Add
+//@   props C01 C03 C10 C17
+//@   assert [signal-after-bookkeeping] before call invoke.notifyToPullNextJobs: j.job.status == queued
+//@   requires q.externalBaseQueue != nil && q.externalBaseQueue.w != nil && q.internalQueue != nil
+//@   requires forall k int :: 0 <= k && k < len(configs) ==> configs[k] != nil
+//@   modifies $usercalls, $alloc, $wgdone[0], $lenOf(q.internalQueue), $enq(q.internalQueue), $lastEnq(q.internalQueue), $submitted, $signals(q.externalBaseQueue.w), $acks, $lastAck
+//@   ensures [rejected] !result1 ==> result0 == nil && $lenOf(q.internalQueue) == old($lenOf(q.internalQueue)) && $enq(q.internalQueue) == old($enq(q.internalQueue))
+//@                        && $signals(q.externalBaseQueue.w) == old($signals(q.externalBaseQueue.w)) && j.job.status == closed && j.job.wg == 0 && !$open(j.Response.ch)
+//@   ensures [accepted] result1 ==> result0 == $mk(j) && $enq(q.internalQueue) == old($enq(q.internalQueue)) + 1 && $lastEnq(q.internalQueue) == $mk(j)
+//@                        && $lenOf(q.internalQueue) == old($lenOf(q.internalQueue)) + 1 && $signals(q.externalBaseQueue.w) == old($signals(q.externalBaseQueue.w)) + 1
+//@                        && j.job.status == queued && j.job.wg == 1 && j.job.data == data
+//@   ensures [counted]  forall m ref {$submitted(m)} :: $submitted(m) == old($submitted(m)) || (result1 && $submitted(m) == old($submitted(m)) + 1)
+//@   ensures [fresh]    $fresh(j)
+
+//@ func resultQueue.AddAll
+//@   props C01 C05 C08 C17
+//@   assert [signal-after-bookkeeping] before call invoke.notifyToPullNextJobs: j.resultJob.job.status == queued
+//@   requires q.externalBaseQueue != nil && q.externalBaseQueue.w != nil && q.internalQueue != nil && len(items) <= MaxUint32
+//@   modifies $usercalls, $alloc, $wgdone[0], $lenOf(q.internalQueue), $enq(q.internalQueue), $lastEnq(q.internalQueue), $submitted, $signals(q.externalBaseQueue.w), $acks, $lastAck
+//@   ensures [pending]  groupJob.wgc.count == $enq(q.internalQueue) - old($enq(q.internalQueue)) && RI_Wgc(groupJob.wgc)
+//@   ensures [signals]  $signals(q.externalBaseQueue.w) - old($signals(q.externalBaseQueue.w)) == $enq(q.internalQueue) - old($enq(q.internalQueue))
+//@   ensures [len]      $lenOf(q.internalQueue) - old($lenOf(q.internalQueue)) == $enq(q.internalQueue) - old($enq(q.internalQueue))
+//@   ensures [handle]   result == $mk(groupJob) && $fresh(groupJob)
+//@   ensures [stream]   len(items) > 0 ==> (groupJob.wgc.count >= 1 <==> $open(groupJob.resultJob.Response.ch))
+//@   loop 1: invariant [range]  0 <= rangeindex + 1 && rangeindex + 1 <= len(items) && RI_Wgc(groupJob.wgc) && $fresh(groupJob) && $fresh(groupJob.wgc)
+//@   loop 1: invariant [count]  ($enq(q.internalQueue) - old($enq(q.internalQueue))) + (len(items) - groupJob.wgc.count) == rangeindex + 1
+//@                                && $enq(q.internalQueue) >= old($enq(q.internalQueue)) && groupJob.wgc.count <= len(items)
+//@   loop 1: invariant [effect] $signals(q.externalBaseQueue.w) - old($signals(q.externalBaseQueue.w)) == $enq(q.internalQueue) - old($enq(q.internalQueue))
+//@                                && $lenOf(q.internalQueue) - old($lenOf(q.internalQueue)) == $enq(q.internalQueue) - old($enq(q.internalQueue))
+//@   loop 1: invariant [stream] $fresh(groupJob.resultJob.Response.ch) && StreamOK(groupJob.resultJob.Response, groupJob.wgc) && (len(items) > 0 ==> (groupJob.wgc.count >= 1 <==> $open(groupJob.resultJob.Response.ch)))
+
+//@ func newPriorityQueue
+//@   props C15 C17
+//@   requires w != nil && QM(w)
+//@   modifies $alloc, w.queues.Manager.items, w.queues.Manager.items[**]
+//@   ensures [once]  len(w.queues.Manager.items) == old(len(w.queues.Manager.items)) + 1 && w.queues.Manager.items[old(len(w.queues.Manager.items))] == pq
+//@   ensures [kept]  forall i int :: 0 <= i && i < old(len(w.queues.Manager.items)) ==> w.queues.Manager.items[i] == old(w.queues.Manager.items[i])
+//@   ensures [wired] $fresh(result) && result.internalQueue == pq && result.externalBaseQueue != nil && result.externalBaseQueue.q == pq && result.externalBaseQueue.w == $mk(w)
+
+//@ func priorityQueue.Add
+//@   props C01 C03 C10 C17
+//@   assert [signal-after-bookkeeping] before call invoke.notifyToPullNextJobs: j.status == queued
+//@   requires q.externalBaseQueue != nil && q.externalBaseQueue.w != nil && q.internalQueue != nil
+//@   requires forall k int :: 0 <= k && k < len(configs) ==> configs[k] != nil
+//@   modifies $usercalls, $alloc, $wgdone[0], $lenOf(q.internalQueue), $enq(q.internalQueue), $lastEnq(q.internalQueue), $lastEnqPrio(q.internalQueue), $submitted, $signals(q.externalBaseQueue.w), $acks, $lastAck
+//@   ensures [rejected] !result1 ==> result0 == nil && $lenOf(q.internalQueue) == old($lenOf(q.internalQueue)) && $enq(q.internalQueue) == old($enq(q.internalQueue))
+//@                        && $signals(q.externalBaseQueue.w) == old($signals(q.externalBaseQueue.w)) && j.status == closed && j.wg == 0
+//@   ensures [accepted] result1 ==> result0 == $mk(j) && $enq(q.internalQueue) == old($enq(q.internalQueue)) + 1 && $lastEnq(q.internalQueue) == $mk(j) && $lastEnqPrio(q.internalQueue) == priority
+//@                        && $lenOf(q.internalQueue) == old($lenOf(q.internalQueue)) + 1 && $signals(q.externalBaseQueue.w) == old($signals(q.externalBaseQueue.w)) + 1
+//@                        && j.status == queued && j.wg == 1 && j.data == data
+//@   ensures [counted]  forall m ref {$submitted(m)} :: $submitted(m) == old($submitted(m)) || (result1 && $submitted(m) == old($submitted(m)) + 1)
+//@   ensures [fresh]    $fresh(j)
+
+//@ func priorityQueue.AddAll
+//@   props C01 C05 C08 C17
+//@   assert [signal-after-bookkeeping] before call invoke.notifyToPullNextJobs: j.job.status == queued
+//@   requires q.externalBaseQueue != nil && q.externalBaseQueue.w != nil && q.internalQueue != nil && len(items) <= MaxUint32
+//@   modifies $usercalls, $alloc, $wgdone[0], $lenOf(q.internalQueue), $enq(q.internalQueue), $lastEnq(q.internalQueue), $lastEnqPrio(q.internalQueue), $submitted, $signals(q.externalBaseQueue.w), $acks, $lastAck
+//@   ensures [pending]  groupJob.wgc.count == $enq(q.internalQueue) - old($enq(q.internalQueue)) && RI_Wgc(groupJob.wgc)
+//@   ensures [signals]  $signals(q.externalBaseQueue.w) - old($signals(q.externalBaseQueue.w)) == $enq(q.internalQueue) - old($enq(q.internalQueue))
+//@   ensures [len]      $lenOf(q.internalQueue) - old($lenOf(q.internalQueue)) == $enq(q.internalQueue) - old($enq(q.internalQueue))
+//@   ensures [handle]   result == $mk(groupJob) && $fresh(groupJob)
+//@   loop 1: invariant [range]  0 <= rangeindex + 1 && rangeindex + 1 <= len(items) && RI_Wgc(groupJob.wgc) && $fresh(groupJob) && $fresh(groupJob.wgc)
+//@   loop 1: invariant [count]  ($enq(q.internalQueue) - old($enq(q.internalQueue))) + (len(items) - groupJob.wgc.count) == rangeindex + 1
+//@                                && $enq(q.internalQueue) >= old($enq(q.internalQueue)) && groupJob.wgc.count <= len(items)
+//@   loop 1: invariant [effect] $signals(q.externalBaseQueue.w) - old($signals(q.externalBaseQueue.w)) == $enq(q.internalQueue) - old($enq(q.internalQueue))
+//@                                && $lenOf(q.internalQueue) - old($lenOf(q.internalQueue)) == $enq(q.internalQueue) - old($enq(q.internalQueue))
+
+//@ func newErrorPriorityQueue
+//@   props C15 C17
+//@   requires w != nil && QM(w)
+//@   modifies $alloc, w.queues.Manager.items, w.queues.Manager.items[**]
+//@   ensures [once]  len(w.queues.Manager.items) == old(len(w.queues.Manager.items)) + 1 && w.queues.Manager.items[old(len(w.queues.Manager.items))] == pq
+//@   ensures [kept]  forall i int :: 0 <= i && i < old(len(w.queues.Manager.items)) ==> w.queues.Manager.items[i] == old(w.queues.Manager.items[i])
+//@   ensures [wired] $fresh(result) && result.internalQueue == pq && result.externalBaseQueue != nil && result.externalBaseQueue.q == pq && result.externalBaseQueue.w == $mk(w)
+
+//@ func errorPriorityQueue.Add
+//@   props C01 C03 C10 C17
+//@   assert [signal-after-bookkeeping] before call invoke.notifyToPullNextJobs: j.job.status == queued
+//@   requires q.externalBaseQueue != nil && q.externalBaseQueue.w != nil && q.internalQueue != nil
+//@   requires forall k int :: 0 <= k && k < len(configs) ==> configs[k] != nil
+//@   modifies $usercalls, $alloc, $wgdone[0], $lenOf(q.internalQueue), $enq(q.internalQueue), $lastEnq(q.internalQueue), $lastEnqPrio(q.internalQueue), $submitted, $signals(q.externalBaseQueue.w), $acks, $lastAck
+//@   ensures [rejected] !result1 ==> result0 == nil && $lenOf(q.internalQueue) == old($lenOf(q.internalQueue)) && $enq(q.internalQueue) == old($enq(q.internalQueue))
+//@                        && $signals(q.externalBaseQueue.w) == old($signals(q.externalBaseQueue.w)) && j.job.status == closed && j.job.wg == 0 && !$open(j.Response.ch)
+//@   ensures [accepted] result1 ==> result0 == $mk(j) && $enq(q.internalQueue) == old($enq(q.internalQueue)) + 1 && $lastEnq(q.internalQueue) == $mk(j) && $lastEnqPrio(q.internalQueue) == priority
+//@                        && $lenOf(q.internalQueue) == old($lenOf(q.internalQueue)) + 1 && $signals(q.externalBaseQueue.w) == old($signals(q.externalBaseQueue.w)) + 1
+//@                        && j.job.status == queued && j.job.wg == 1 && j.job.data == data
+//@   ensures [counted]  forall m ref {$submitted(m)} :: $submitted(m) == old($submitted(m)) || (result1 && $submitted(m) == old($submitted(m)) + 1)
+//@   ensures [fresh]    $fresh(j)
+
+//@ func errorPriorityQueue.AddAll
+//@   props C01 C05 C08 C17
+//@   assert [signal-after-bookkeeping] before call invoke.notifyToPullNextJobs: j.errorJob.job.status == queued
+//@   requires q.externalBaseQueue != nil && q.externalBaseQueue.w != nil && q.internalQueue != nil && len(items) <= MaxUint32
+//@   modifies $usercalls, $alloc, $wgdone[0], $lenOf(q.internalQueue), $enq(q.internalQueue), $lastEnq(q.internalQueue), $lastEnqPrio(q.internalQueue), $submitted, $signals(q.externalBaseQueue.w), $acks, $lastAck
+//@   ensures [pending]  groupJob.wgc.count == $enq(q.internalQueue) - old($enq(q.internalQueue)) && RI_Wgc(groupJob.wgc)
+//@   ensures [signals]  $signals(q.externalBaseQueue.w) - old($signals(q.externalBaseQueue.w)) == $enq(q.internalQueue) - old($enq(q.internalQueue))
+//@   ensures [len]      $lenOf(q.internalQueue) - old($lenOf(q.internalQueue)) == $enq(q.internalQueue) - old($enq(q.internalQueue))
+//@   ensures [handle]   result == $mk(groupJob) && $fresh(groupJob)
+//@   ensures [stream]   len(items) > 0 ==> (groupJob.wgc.count >= 1 <==> $open(groupJob.errorJob.Response.ch))
+//@   loop 1: invariant [range]  0 <= rangeindex + 1 && rangeindex + 1 <= len(items) && RI_Wgc(groupJob.wgc) && $fresh(groupJob) && $fresh(groupJob.wgc)
+//@   loop 1: invariant [count]  ($enq(q.internalQueue) - old($enq(q.internalQueue))) + (len(items) - groupJob.wgc.count) == rangeindex + 1
+//@                                && $enq(q.internalQueue) >= old($enq(q.internalQueue)) && groupJob.wgc.count <= len(items)
+//@   loop 1: invariant [effect] $signals(q.externalBaseQueue.w) - old($signals(q.externalBaseQueue.w)) == $enq(q.internalQueue) - old($enq(q.internalQueue))
+//@                                && $lenOf(q.internalQueue) - old($lenOf(q.internalQueue)) == $enq(q.internalQueue) - old($enq(q.internalQueue))
+//@   loop 1: invariant [stream] $fresh(groupJob.errorJob.Response.ch) && StreamOK(groupJob.errorJob.Response, groupJob.wgc) && (len(items) > 0 ==> (groupJob.wgc.count >= 1 <==> $open(groupJob.errorJob.Response.ch)))
+
+//@ func newResultPriorityQueue
+//@   props C15 C17
+//@   requires w != nil && QM(w)
+//@   modifies $alloc, w.queues.Manager.items, w.queues.Manager.items[**]
+//@   ensures [once]  len(w.queues.Manager.items) == old(len(w.queues.Manager.items)) + 1 && w.queues.Manager.items[old(len(w.queues.Manager.items))] == pq
+//@   ensures [kept]  forall i int :: 0 <= i && i < old(len(w.queues.Manager.items)) ==> w.queues.Manager.items[i] == old(w.queues.Manager.items[i])
+//@   ensures [wired] $fresh(result) && result.internalQueue == pq && result.externalBaseQueue != nil && result.externalBaseQueue.q == pq && result.externalBaseQueue.w == $mk(w)
+
+//@ func resultPriorityQueue.Add
+//@   props C01 C03 C10 C17
+//@   assert [signal-after-bookkeeping] before call invoke.notifyToPullNextJobs: j.job.status == queued
+//@   requires q.externalBaseQueue != nil && q.externalBaseQueue.w != nil && q.internalQueue != nil
+//@   requires forall k int :: 0 <= k && k < len(configs) ==> configs[k] != nil
+//@   modifies $usercalls, $alloc, $wgdone[0], $lenOf(q.internalQueue), $enq(q.internalQueue), $lastEnq(q.internalQueue), $lastEnqPrio(q.internalQueue), $submitted, $signals(q.externalBaseQueue.w), $acks, $lastAck
+//@   ensures [rejected] !result1 ==> result0 == nil && $lenOf(q.internalQueue) == old($lenOf(q.internalQueue)) && $enq(q.internalQueue) == old($enq(q.internalQueue))
+//@                        && $signals(q.externalBaseQueue.w) == old($signals(q.externalBaseQueue.w)) && j.job.status == closed && j.job.wg == 0 && !$open(j.Response.ch)
+//@   ensures [accepted] result1 ==> result0 == $mk(j) && $enq(q.internalQueue) == old($enq(q.internalQueue)) + 1 && $lastEnq(q.internalQueue) == $mk(j) && $lastEnqPrio(q.internalQueue) == priority
+//@                        && $lenOf(q.internalQueue) == old($lenOf(q.internalQueue)) + 1 && $signals(q.externalBaseQueue.w) == old($signals(q.externalBaseQueue.w)) + 1
+//@                        && j.job.status == queued && j.job.wg == 1 && j.job.data == data
+//@   ensures [counted]  forall m ref {$submitted(m)} :: $submitted(m) == old($submitted(m)) || (result1 && $submitted(m) == old($submitted(m)) + 1)
+//@   ensures [fresh]    $fresh(j)
+
+//@ func resultPriorityQueue.AddAll
+//@   props C01 C05 C08 C17
+//@   assert [signal-after-bookkeeping] before call invoke.notifyToPullNextJobs: j.resultJob.job.status == queued
+//@   requires q.externalBaseQueue != nil && q.externalBaseQueue.w != nil && q.internalQueue != nil && len(items) <= MaxUint32
+//@   modifies $usercalls, $alloc, $wgdone[0], $lenOf(q.internalQueue), $enq(q.internalQueue), $lastEnq(q.internalQueue), $lastEnqPrio(q.internalQueue), $submitted, $signals(q.externalBaseQueue.w), $acks, $lastAck
+//@   ensures [pending]  groupJob.wgc.count == $enq(q.internalQueue) - old($enq(q.internalQueue)) && RI_Wgc(groupJob.wgc)
+//@   ensures [signals]  $signals(q.externalBaseQueue.w) - old($signals(q.externalBaseQueue.w)) == $enq(q.internalQueue) - old($enq(q.internalQueue))
+//@   ensures [len]      $lenOf(q.internalQueue) - old($lenOf(q.internalQueue)) == $enq(q.internalQueue) - old($enq(q.internalQueue))
+//@   ensures [handle]   result == $mk(groupJob) && $fresh(groupJob)
+//@   ensures [stream]   len(items) > 0 ==> (groupJob.wgc.count >= 1 <==> $open(groupJob.resultJob.Response.ch))
+//@   loop 1: invariant [range]  0 <= rangeindex + 1 && rangeindex + 1 <= len(items) && RI_Wgc(groupJob.wgc) && $fresh(groupJob) && $fresh(groupJob.wgc)
+//@   loop 1: invariant [count]  ($enq(q.internalQueue) - old($enq(q.internalQueue))) + (len(items) - groupJob.wgc.count) == rangeindex + 1
+//@                                && $enq(q.internalQueue) >= old($enq(q.internalQueue)) && groupJob.wgc.count <= len(items)
+//@   loop 1: invariant [effect] $signals(q.externalBaseQueue.w) - old($signals(q.externalBaseQueue.w)) == $enq(q.internalQueue) - old($enq(q.internalQueue))
+//@                                && $lenOf(q.internalQueue) - old($lenOf(q.internalQueue)) == $enq(q.internalQueue) - old($enq(q.internalQueue))
+//@   loop 1: invariant [stream] $fresh(groupJob.resultJob.Response.ch) && StreamOK(groupJob.resultJob.Response, groupJob.wgc) && (len(items) > 0 ==> (groupJob.wgc.count >= 1 <==> $open(groupJob.resultJob.Response.ch)))
+
+// ---------------------------------------------------------------- externalBaseQueue
+//@ func externalBaseQueue.NumPending
+//@   props C17
+//@   requires eq.q != nil
+//@   ensures result == $lenOf(eq.q)
+
+//@ func externalBaseQueue.Worker
+//@   props C14
+//@   ensures result == eq.w
+
+//@ func externalBaseQueue.Close
+//@   props C10
+//@   requires eq.q != nil
+//@   modifies $qclosed(eq.q)
+//@   ensures $qclosed(eq.q)
+
+// Purge empties the queue and cancels (closes) every job that was in it: each value implementing io.Closer is closed, none is skipped.
+//@ func externalBaseQueue.Purge
+//@   props C10 C08 C05
+//@   requires eq.q != nil
+//@   modifies $lenOf(eq.q), $purges(eq.q), $jstatus, $jclosecalls, $acks, $lastAck
+//@   ensures [emptied] $lenOf(eq.q) == 0 && $purges(eq.q) == old($purges(eq.q)) + 1
+//@   ensures [closed]  forall k int {prevValues[k]} :: 0 <= k && k < len(prevValues) && $impl(io.Closer, prevValues[k]) ==> $jclosecalls(prevValues[k]) > old($jclosecalls(prevValues[k]))
+//@   ensures [count]   len(prevValues) == old($lenOf(eq.q))
+//@   loop 1: invariant [range]  0 <= rangeindex + 1 && rangeindex + 1 <= len(prevValues) && $lenOf(eq.q) == 0 && $purges(eq.q) == old($purges(eq.q)) + 1
+//@   loop 1: invariant [closed] forall k int {prevValues[k]} :: 0 <= k && k <= rangeindex && $impl(io.Closer, prevValues[k]) ==> $jclosecalls(prevValues[k]) > old($jclosecalls(prevValues[k]))
+//@   loop 1: invariant [mono]   forall x ref {$jclosecalls(x)} :: $jclosecalls(x) >= old($jclosecalls(x))
+
+// ---------------------------------------------------------------- queueManager
+//@ func createQueueManager
+//@   props C15
+//@   modifies $alloc
+//@   ensures result.strategy == strategy && len(result.Manager.items) == 0 && result.Manager.roundRobinIndex == 0
+
+// next dispatches on the strategy to the Manager's selection function.
+//@ func queueManager.next
+//@   props C15 C01
+//@   requires RI_Manager($addr(qm.Manager)) && (forall i int :: 0 <= i && i < len(qm.Manager.items) ==> $lenOf(qm.Manager.items[i]) >= 0)
+//@   modifies qm.Manager.roundRobinIndex
+//@   ensures [ri]      RI_Manager($addr(qm.Manager))
+//@   ensures [invalid] qm.strategy != RoundRobin && qm.strategy != MaxLen && qm.strategy != MinLen ==> result0 == nil && result1 == errInvalidStrategyType
+//@   ensures [hit]     result1 == nil ==> exists j int :: 0 <= j && j < len(qm.Manager.items) && result0 == qm.Manager.items[j] && $lenOf(qm.Manager.items[j]) > 0
+//@   ensures [rr]      result1 == nil && qm.strategy == RoundRobin ==> exists j int :: 0 <= j && j < len(qm.Manager.items) && result0 == qm.Manager.items[j]
+//@                       && (forall i int :: inCyc(len(qm.Manager.items), old(qm.Manager.roundRobinIndex), j, i) && j != old(qm.Manager.roundRobinIndex) ==> $lenOf(qm.Manager.items[i]) <= 0)
+//@                       && qm.Manager.roundRobinIndex == (j + 1) % len(qm.Manager.items)
+//@   ensures [max]     result1 == nil && qm.strategy == MaxLen ==> forall i int :: 0 <= i && i < len(qm.Manager.items) ==> $lenOf(qm.Manager.items[i]) <= $lenOf(result0)
+//@   ensures [min]     result1 == nil && qm.strategy == MinLen ==> forall i int :: 0 <= i && i < len(qm.Manager.items) && $lenOf(qm.Manager.items[i]) > 0 ==> $lenOf(result0) <= $lenOf(qm.Manager.items[i])
+//@   ensures [empty]   result1 != nil && (qm.strategy == RoundRobin || qm.strategy == MaxLen || qm.strategy == MinLen) ==> (forall i int :: 0 <= i && i < len(qm.Manager.items) ==> $lenOf(qm.Manager.items[i]) <= 0)
+
+// ---------------------------------------------------------------- persistent / distributed queues
+//@ func newPersistentQueue
+//@   props C15 C17
+//@   requires w != nil && QM(w)
+//@   modifies $alloc, w.queues.Manager.items, w.queues.Manager.items[**]
+//@   ensures [once]  len(w.queues.Manager.items) == old(len(w.queues.Manager.items)) + 1 && w.queues.Manager.items[old(len(w.queues.Manager.items))] == pq
+//@   ensures [kept]  forall i int :: 0 <= i && i < old(len(w.queues.Manager.items)) ==> w.queues.Manager.items[i] == old(w.queues.Manager.items[i])
+
+//@ func newPersistentPriorityQueue
+//@   props C15 C17
+//@   requires w != nil && QM(w) && len(w.queues.Manager.items) < MaxInt - 1
+//@   modifies $alloc, w.queues.Manager.items, w.queues.Manager.items[**]
+//@   ensures [once]  len(w.queues.Manager.items) == old(len(w.queues.Manager.items)) + 1 && w.queues.Manager.items[old(len(w.queues.Manager.items))] == pq
+//@   ensures [kept]  forall i int :: 0 <= i && i < old(len(w.queues.Manager.items)) ==> w.queues.Manager.items[i] == old(w.queues.Manager.items[i])
+
+// persistentQueue.Add: an unencodable payload or a refusing adapter rejects the submission with no effect on queue, counters or signal.
+//@ func persistentQueue.Add
+//@   props C12 C11 C01 C17
+//@   requires q.queue != nil && q.queue.externalBaseQueue != nil && q.queue.externalBaseQueue.w != nil && q.queue.internalQueue != nil
+//@   requires forall k int :: 0 <= k && k < len(configs) ==> configs[k] != nil
+//@   modifies $usercalls, $alloc, $wgdone[0], $lenOf(q.queue.internalQueue), $enq(q.queue.internalQueue), $lastEnq(q.queue.internalQueue), $submitted, $signals(q.queue.externalBaseQueue.w), $acks, $lastAck
+//@   ensures [rejected] !result ==> $lenOf(q.queue.internalQueue) == old($lenOf(q.queue.internalQueue)) && $enq(q.queue.internalQueue) == old($enq(q.queue.internalQueue))
+//@                        && $signals(q.queue.externalBaseQueue.w) == old($signals(q.queue.externalBaseQueue.w))
+//@   ensures [accepted] result ==> $enq(q.queue.internalQueue) == old($enq(q.queue.internalQueue)) + 1 && $lenOf(q.queue.internalQueue) == old($lenOf(q.queue.internalQueue)) + 1
+//@                        && $signals(q.queue.externalBaseQueue.w) == old($signals(q.queue.externalBaseQueue.w)) + 1
+//@   ensures [counted]  forall m ref {$submitted(m)} :: $submitted(m) == old($submitted(m)) || (result && $submitted(m) == old($submitted(m)) + 1)
+
+//@ func persistentPriorityQueue.Add
+//@   props C12 C11 C01 C17
+//@   requires q.priorityQueue != nil && q.priorityQueue.externalBaseQueue != nil && q.priorityQueue.externalBaseQueue.w != nil && q.priorityQueue.internalQueue != nil
+//@   requires forall k int :: 0 <= k && k < len(configs) ==> configs[k] != nil
+//@   modifies $usercalls, $alloc, $lenOf(q.priorityQueue.internalQueue), $enq(q.priorityQueue.internalQueue), $lastEnq(q.priorityQueue.internalQueue), $lastEnqPrio(q.priorityQueue.internalQueue), $submitted, $signals(q.priorityQueue.externalBaseQueue.w)
+//@   ensures [rejected] !result ==> $lenOf(q.priorityQueue.internalQueue) == old($lenOf(q.priorityQueue.internalQueue)) && $enq(q.priorityQueue.internalQueue) == old($enq(q.priorityQueue.internalQueue))
+//@                        && $signals(q.priorityQueue.externalBaseQueue.w) == old($signals(q.priorityQueue.externalBaseQueue.w))
+//@   ensures [accepted] result ==> $enq(q.priorityQueue.internalQueue) == old($enq(q.priorityQueue.internalQueue)) + 1 && $lastEnqPrio(q.priorityQueue.internalQueue) == priority
+//@                        && $signals(q.priorityQueue.externalBaseQueue.w) == old($signals(q.priorityQueue.externalBaseQueue.w)) + 1
+//@   ensures [counted]  forall m ref {$submitted(m)} :: $submitted(m) == old($submitted(m)) || (result && $submitted(m) == old($submitted(m)) + 1)
+
+//@ func distributedQueue.Add
+//@   props C12 C11
+//@   requires dq.IDistributedQueue != nil
+//@   requires forall k int :: 0 <= k && k < len(c) ==> c[k] != nil
+//@   modifies $usercalls, $alloc, $wgdone[0], $lenOf(dq.IDistributedQueue), $enq(dq.IDistributedQueue), $lastEnq(dq.IDistributedQueue), $acks, $lastAck
+//@   ensures [rejected] !result ==> $lenOf(dq.IDistributedQueue) == old($lenOf(dq.IDistributedQueue)) && $enq(dq.IDistributedQueue) == old($enq(dq.IDistributedQueue))
+//@   ensures [accepted] result ==> $enq(dq.IDistributedQueue) == old($enq(dq.IDistributedQueue)) + 1 && $lenOf(dq.IDistributedQueue) == old($lenOf(dq.IDistributedQueue)) + 1
+
+//@ func distributedPriorityQueue.Add
+//@   props C12 C11
+//@   requires dpq.IDistributedPriorityQueue != nil
+//@   requires forall k int :: 0 <= k && k < len(c) ==> c[k] != nil
+//@   modifies $usercalls, $alloc, $wgdone[0], $lenOf(dpq.IDistributedPriorityQueue), $enq(dpq.IDistributedPriorityQueue), $lastEnq(dpq.IDistributedPriorityQueue), $lastEnqPrio(dpq.IDistributedPriorityQueue), $acks, $lastAck
+//@   ensures [rejected] !result ==> $lenOf(dpq.IDistributedPriorityQueue) == old($lenOf(dpq.IDistributedPriorityQueue)) && $enq(dpq.IDistributedPriorityQueue) == old($enq(dpq.IDistributedPriorityQueue))
+//@   ensures [accepted] result ==> $enq(dpq.IDistributedPriorityQueue) == old($enq(dpq.IDistributedPriorityQueue)) + 1 && $lastEnqPrio(dpq.IDistributedPriorityQueue) == priority
